@@ -266,6 +266,12 @@ func ReadStriped(src Buf, dt int, dst []Sl, outerNil bool) int {
 	return pairs[src.T()][dt].readStriped(src, dst, outerNil)
 }
 
+// HasIO reports whether Write/Read/WriteStriped/ReadStriped are instantiated for slices of type s and
+// buffers of type d and for the reverse direction.
+func HasIO(s, d int) bool {
+	return s < len(pairs) && d < len(pairs) && pairs[s][d].write != nil && pairs[s][d].writeStriped != nil && pairs[d][s].read != nil && pairs[d][s].readStriped != nil
+}
+
 // Conv calls the one conversion function admissible for the two element types.
 func Conv(src, dst Buf) int { return pairs[src.T()][dst.T()].conv(src, dst) }
 
